@@ -70,10 +70,15 @@ func c16Job(id int, cs c16Case, rc string, keys map[string]string) harness.Job {
 	}
 	if cs.mark >= 0 {
 		cfg.Probes = append(cfg.Probes, harness.Probe{Name: "verif-seed-a", Kind: "seed", Arg: cs.buf, Pos: cs.mark})
-		ans = append(ans, Key(c16SeedA), Key(keys["set-mark"]))
+		// (with a numeric argument set-mark puts the mark at point in this library, without one at
+		// the position 1; a mark alone is not an active region: exchange-point-and-mark makes it one)
+		ans = append(ans, Key(c16SeedA), Key("\x1b1"), Key(keys["set-mark"]))
 	}
 	cfg.Probes = append(cfg.Probes, harness.Probe{Name: "verif-seed-b", Kind: "seed", Arg: cs.buf, Pos: cs.pos})
 	ans = append(ans, Key(c16SeedB))
+	if cs.mark >= 0 {
+		ans = append(ans, Key(keys["exchange-point-and-mark"])) // point = cs.mark, mark = cs.pos, region active
+	}
 	from := len(ans)
 	if strings.HasPrefix(cs.reuse, "series") {
 		if cs.mode == "vi" {
@@ -199,7 +204,14 @@ func c16Verdict(cs c16Case, t *harness.Trace) (fp, what string, nontrivial bool)
 		return "", fmt.Sprintf("not judged: %d observations, expected %d", len(obs), need), false
 	}
 	b0 := obs[0]
-	if b0.Line != cs.buf || b0.Pos != min(cs.pos, len([]rune(cs.buf))) && cs.mode != "vi" {
+	wantPos := cs.pos
+	if cs.mark >= 0 {
+		wantPos = cs.mark
+	}
+	if cs.mark >= 0 && !b0.SelOn {
+		return "", "not judged: region not active", false
+	}
+	if b0.Line != cs.buf || b0.Pos != min(wantPos, len([]rune(cs.buf))) && cs.mode != "vi" {
 		return "", "not judged: seed state not established", false
 	}
 	cls := strings.Join(cs.kills, "+")
@@ -373,8 +385,14 @@ func runC16(c *Ctx) {
 				if c.Outcomes[what] == 1 {
 					c.Sample(map[string]any{"not_judged": what, "case": cs.String(), "keys": ShowKeys(j.Calls[0])})
 				}
+			case non && cs.mark >= 0:
+				c.Outcome("ok/killed-and-restored(region)")
+			case non && strings.HasPrefix(cs.reuse, "series"):
+				c.Outcome("ok/killed-and-restored(series)")
 			case non:
 				c.Outcome("ok/killed-and-restored")
+			case cs.mark >= 0:
+				c.Outcome("ok/nothing-to-kill(region)")
 			default:
 				c.Outcome("ok/nothing-to-kill")
 			}
